@@ -9,4 +9,5 @@ let table : (string * (Model.sexp -> Model.sexp)) list = [
   "c03", Model.c03_check;
   "c03p", Model.c03p_check;
   "c15", Model.c15_check;
+  "c16", Model.c16_check;
 ]
